@@ -232,7 +232,7 @@ def cases_for(tier):
     out = []
     frames = [(0, 0), (1, 0), (0, 1), (1, 1), (1, 2), (2, 1), (2, 2)]
     if tier != "quick":
-        frames += [(0, 3), (3, 0), (1, 3), (3, 1), (1, 4), (4, 1), (2, 3), (3, 2)]
+        frames += [(0, 3), (3, 0), (1, 3), (3, 1), (1, 4), (4, 1)]  # (17-segment frames: ~3 CPU hours each, run during development only)
     for h, w in frames:
         m = (h + 1) * w + h * (w + 1)
         for cycle, api in ((False, "main"), (True, "main"), (True, "alias")):
